@@ -406,6 +406,13 @@ def c03():
     res.append(("io", core.campaign("io", fam_io("C03", ["K1b", "K2", "K3"], scale(15, 150), 50), wd)))
     res.append(("fill", core.campaign("fill", fam_fill("C03", ["K1", "K1b", "K2"], scale(6, 60)), wd)))
     res.append(("regress", core.campaign("regress", regress_programs(), wd)))
+    # the highest cluster numbers of the largest FAT12 / FAT16 volumes (values just below the reserved range of the table width)
+    rng = rng_for("C03", 21)
+    top = []
+    for i in range(scale(6, 60)):
+        vol, cs = gen.top_clusters_volume(rng, [12, 16][i % 2])
+        top.append(gen.fill_program(rng, "top-fill-%d" % i, {"vol": vol}, cs, rounds=2, chunk_clusters=(1, 2, 3), use_dirs=(i % 3 == 0)))
+    res.append(("top-clusters", core.campaign("top-clusters", top, wd)))
     core.finish("C03", LEVEL, res, mc_layer_b(wd, deep=True), t0,
                 "namespace, file-I/O and fill-to-full programs; the structural invariants (Fat/DirSlots/FatFsA!StructViol) are evaluated by TLC on the raw "
                 "image after every single call",
@@ -438,6 +445,11 @@ def c04():
             vol, cs = small_foreign(rng, ft, n=n)
             bnd.append(gen.ns_program(rng, "bnd-ns-%d-%d" % (n, i), {"vol": vol}, 25, gen.NAMES_ASCII))
     res.append(("boundary-counts", core.campaign("boundary-counts", bnd, wd)))
+    top = []
+    for i in range(scale(6, 60)):
+        vol, cs = gen.top_clusters_volume(rng, [12, 16][i % 2])
+        top.append(gen.io_program(rng, "top-io-%d" % i, {"vol": vol}, cs, 35, n_files=3, max_clusters=4))
+    res.append(("top-clusters", core.campaign("top-clusters", top, wd)))
     core.finish("C04", LEVEL, res, None, t0,
                 "after every call a clone of the image is mounted afresh and listed/read through the library, and the raw bytes are decoded independently; "
                 "both must equal the model tree (names, kinds, sizes, contents, stamps); extents are read straight from the device",
@@ -574,6 +586,9 @@ def c12():
     first = [gen.first_mutation_program(rng, "c12-first-%s-%d" % (k, i), gen.K(k), CS[k], end=rng.choice(["unmount", "abandon", "dropfs"]))
              for k in ("K1b", "K3", "K5") for i in range(scale(4, 40))]
     res.append(("first-mutation", core.campaign("first-mutation", first, wd)))
+    # a transient storage error during the first change of a session (one of its first device calls), then more changes
+    df = [gen.dirty_fault_program(rng, "dirty-fault-%s-%d" % (k, i), gen.K(k), CS[k]) for k in ("K1b", "K3", "K5") for i in range(scale(8, 80))]
+    res.append(("dirty-fault", core.campaign("dirty-fault", df, wd)))
     core.finish("C12", LEVEL, res, None, t0,
                 "namespace and file-I/O histories on volumes whose status byte at mount is clean/dirty/io-error/has reserved bits; after every call TLC "
                 "checks dirty-bit bracketing of structural changes (computed from raw-image diffs), bits never cleared, restoration at unmount/drop, and "
@@ -589,6 +604,9 @@ def c09():
     ks = ["K1b", "K3", "K5"] if core.tier() == "quick" else ["K1", "K1b", "K2", "K3", "K4b", "K5", "K5b"]
     for kname in ks:
         progs.append(gen.fault_program("flt-%s" % kname, gen.K(kname), CS[kname]))
+    # the same fixed history mounted with the non-default option strict(false) (lenient paths must not swallow storage errors either)
+    for kname in (["K5"] if core.tier() == "quick" else ["K1b", "K3", "K5"]):
+        progs.append(gen.fault_program("flt-%sL" % kname, dict(gen.K(kname), strict=False), CS[kname]))
     # plus a few random histories (short, so that the enumeration stays affordable)
     for i in range(scale(3, 30)):
         kname = rng.choice(["K1b", "K2", "K5"])
@@ -626,6 +644,9 @@ def c14():
     for kname in ["K1b", "K2", "K5"] + (["K3", "K4b"] if core.tier() == "thorough" else []):
         for i in range(half(12, 120)):
             progs.append(gen.crash_program(rng, "crash-%s-%d" % (kname, i), gen.K(kname), CS[kname]))
+    for kname in ["K1", "K1b", "K3"]:
+        for i in range(half(4, 40)):
+            progs.append(gen.crash_reuse_program(rng, "crash-reuse-%s-%d" % (kname, i), gen.K(kname), CS[kname]))
     res = [("crash", core.campaign("crash", progs, wd))]
     # the same kind of histories with the device handed to the library as a std::io object behind StdIoWrapper (what most users do)
     std = [gen.crash_program(rng, "crash-std-%s-%d" % (k, i), gen.K(k), CS[k]) for k in ("K1b", "K5") for i in range(half(10, 100))]
@@ -691,6 +712,9 @@ def c15():
     cfg = dict(gen.K("K2"), obs={"raw": True, "rv": True, "sv": True})
     progs = [gen.name_program("names-%d" % i, cfg, names, lookups) for i, (names, lookups) in enumerate(batches)]
     res = [("names", core.campaign("names", progs, wd, n_shards=14))]
+    # names stay what they are while their neighbours come and go (gaps of deleted slots reused by longer and shorter names)
+    gaps = [gen.gap_program(rng, "gaps-%s-%d" % (k, i), dict(gen.K(k), obs={"raw": True, "rv": True, "sv": True})) for k in ("K1b", "K2", "K5") for i in range(scale(8, 80))]
+    res.append(("gaps", core.campaign("gaps", gaps, wd)))
     core.finish("C15", LEVEL, res, None, t0,
                 "names: every ASCII character and BMP code points (quick: range boundaries + stride 97; thorough: all 63 488) in first, middle and last "
                 "position, astral samples, lengths 0..300 with 1-4 byte characters, every character whose upper-case expansion differs paired with its folded "
@@ -719,6 +743,8 @@ def c16():
                 ["%s.txt" % ("x" * k) for k in range(1, min(pop, 200))],
                 ["\u00e9t\u00e9-%d.doc" % i for i in range(pop // 2)] + ["a b.c d-%d" % i for i in range(pop // 2)],
                 ["FOO~1.TXT", "foo~1.txt", "foooooooo.txt", "foooooooo1.txt", "FOOOOO~1.TXT", "fo0123~1.txt", ".hidden", "..x", "a+b,c;d=e[f].g h"],
+                # every character that is legal in a long name only, early in the base name and in the extension
+                [("d%sta %d.t%st" % (ch, i, ch)) for ch in "+,;=[] ." for i in range(2)] + ["[x].txt", "a]b.c", "x[1]", "=.=", "+1.+"],
                 # long names that contain the tilde themselves, in front of where the numeric tail goes
                 ["~$Report Q%d.docx" % i for i in range(min(pop, 12))] + ["my~notes chapter %d.txt" % i for i in range(min(pop, 12))]
                 + ["a~b~c long name %d.txt" % i for i in range(6)] + ["~~~~~~~~~ %d.t" % i for i in range(6)] + ["x~1 y %d.dat" % i for i in range(6)],
@@ -755,6 +781,8 @@ def c18():
     for i in range(scale(30, 300)):
         kname = rng.choice(["K1b", "K2", "K5"])
         progs.append(gen.clock_program(rng, "clock-%d" % i, gen.K(kname), CS[kname], 30, atime=(i % 2 == 0)))
+    for i in range(scale(12, 120)):
+        progs.append(gen.stamp_fault_program(rng, "stamp-fault-%d" % i, gen.K(["K1b", "K2", "K5"][i % 3])))
     res = [("stamps", core.campaign("stamps", progs, wd, n_shards=14))]
     core.finish("C18", LEVEL, res, None, t0,
                 "explicit stamps: every year, every (month, day), every (hour, second), every minute and a millisecond sweep against boundary values of the "
@@ -887,6 +915,9 @@ def c20():
     for k in kinds:
         for h in hints:
             progs.append(gen.large_program(rng, "large-%s-%s" % (k, h), k, h))
+    for k in kinds:
+        for h in ("last", "before_last"):
+            progs.append(gen.large_last_program(rng, "large-end-%s-%s" % (k, h), k, h))
     for i in range(scale(9, 60)):
         vol, cs = gen.end_of_table_volume(rng, 32)
         progs.append(gen.fill_program(rng, "c20-eot-%d" % i, {"vol": vol}, cs, rounds=1, chunk_clusters=(1, 2, 3), use_dirs=False))
